@@ -123,6 +123,8 @@ class X(ExprMixin, CallMixin):
             base = self.ev(t.value, st)
             if isinstance(base, VRef):
                 obj = st.heap[base.oid]
+                if "$a" in obj:
+                    self.ext["arr_store"](self, base, t.slice, v, st, t); return
                 h = self.contracts.get((base.cls, "__setitem__"))
                 if h is not None:
                     h(self, base, [self.ev(t.slice, st) if not isinstance(t.slice, ast.Slice) else t.slice, v], {}, st); return
